@@ -66,7 +66,7 @@ class RecProtocol(protocol.Protocol):
         self.made += 1
         self.scid = self.transport._scid
         self.side.on_sub_event(self, "made", None)
-        g = getattr(self.side.world, "greeter", None)
+        g = getattr(getattr(self.side, "world", None), "greeter", None)
         if g is not None:
             g(self)
 
@@ -75,14 +75,14 @@ class RecProtocol(protocol.Protocol):
             self.after_lost += 1
         self.data.append(data)
         self.side.on_sub_event(self, "data", data)
-        g = getattr(self.side.world, "reactive", None)
+        g = getattr(getattr(self.side, "world", None), "reactive", None)
         if g is not None:
             g(self, "data")
 
     def connectionLost(self, reason=None):
         self.lost += 1
         self.side.on_sub_event(self, "lost", None)
-        g = getattr(self.side.world, "reactive", None)
+        g = getattr(getattr(self.side, "world", None), "reactive", None)
         if g is not None:
             g(self, "lost")
 
